@@ -292,4 +292,25 @@ CHECKS = {
                    "Dropped-frame counts are the code's time-based estimate and only required to be positive.",
         assumptions=["4-byte word granularity of the stream and of gaps (DMA words)", "card device number 0", "the first 60 reads deliver at least 4 frames (StartRun gives up after 100 empty reads)"],
     ),
+    "C19": dict(
+        pkg=".", hdir="root", test="TestVerif_C19", wal=True,
+        quick=dict(shards=16, checks=1500, timeout=900),
+        thorough=dict(shards=16, checks=30000, timeout=3400),
+        technique="property-based testing (rapid): validity predicates over the identity tables of every accepted configuration + decoded file headers of a real START/STOP cycle",
+        rule="rapid-generated Lancero configurations (1-3 cards with distinct device numbers 0-5 in any order, 1-8 columns, 1-40 rows (mostly equal "
+             "across cards), first row -2..1000, card and column separations 0, negative, exactly sufficient, one too small, larger; optionally the "
+             "same source object prepared a second time with another geometry), Abaco group layouts (1-5 groups of 1-12 channels: adjacent, gapped, "
+             "overlapping by one or more channels, duplicated, arriving in any order; real Sample() with a scripted packet producer) and ROACH channel "
+             "counts; a third of the accepted configurations with <= 48 streams also run START (LJH2.2+LJH3+OFF) / one block / STOP. "
+             "non-trivial = Lancero with >= 2 columns and a non-zero separation, or >= 2 Abaco groups; distinct = FNV-64 of the case",
+        level_text="Accepted configurations must give pairwise distinct names, err<N>/chan<N> naming, one shared number per error/feedback pair, "
+                   "distinct numbers for different (card, column, row), reported groups that are disjoint and cover exactly the numbers in use, "
+                   "row/column codes decoding to the true (row, column, rows, columns), ChannelNames() equal to the tables; Abaco layouts in which two "
+                   "groups share a channel number must be rejected and layouts without overlap accepted; sequential numbering (separations 0) must be "
+                   "accepted. In the START cycle no two streams share a file, every file holds its own stream's data, and the LJH2.2 / LJH3 / OFF "
+                   "headers carry the name, number, index and row/column identity of the tables.",
+        level_note="Which separations are rejected is otherwise the code's decision (only 'accepted => collision-free' is judged). "
+                   "Sub-frame offsets/divisions are timing metadata, not identity, and are not judged here.",
+        assumptions=["Lancero cards have distinct device numbers (Configure rejects repeats)"],
+    ),
 }
